@@ -13,7 +13,7 @@ import numpy as np
 import z3
 
 from . import kernels, llsym, symnp
-from .symnp import SC, SI, SR, SSqrt, is_symarr, tdt
+from .symnp import SC, SI, SR, SSqrt, ComplexView, is_symarr, tdt
 
 
 class Bridge:
@@ -150,7 +150,3 @@ def _wrap(v):
     return v
 
 
-class ComplexView:
-    """what `complex_object_array.view(dtype="double")` denotes in a symbolic session"""
-    def __init__(s, base):
-        s.base = base
